@@ -11,7 +11,7 @@ from vlib import Ctx
 LEVEL = "proof"
 TRUSTED = [
     "Coq 8.16.1 kernel + vm_compute; theorems in coq/Props/C01.v (Print Assumptions: closed under the global context)",
-    "hand-written Gallina models Model/Binary.v (serializers.h/_binary.py/binary.md) and Model/CodedCpp.v (coded_stream.h), tied to the code by differential execution on generated packages and op scripts",
+    "hand-written Gallina models Model/Binary.v (serializers.h/_binary.py/binary.md), Model/CodedCpp.v (coded_stream.h), Model/CodedPy.v (_binary.py coded streams) and Model/PyTyped.v (the serializer classes of _binary.py as programs over the coded stream), tied to the code by differential execution on generated packages and op scripts and, for PyTyped, by comparing call by call with the calls a spying CodedOutputStream records while generated Python writes (harness/py/gen_runner.py, class Spy)",
     "harness: package/value generators, reference encoder (re-checked against Model.Binary.enc inside Coq on every case), C++ shims for xtensor/date (shims/), g++ 12, CPython 3.11 + numpy (python3-vt)",
     "C++ object layout behind IsTriviallySerializable (memcpy = field concatenation) is an assumption validated only by the differential runs",
 ]
@@ -169,6 +169,91 @@ def typed_layer(ctx, n_pkgs, n_writes, cpp=True):
         codec.stop_packages(pkgs)
 
 
+def coq_trace(tr):
+    """the calls a spying CodedOutputStream recorded -> Model.CodedPy.pwop list (ensure_capacity(1) + unchecked byte = PWByte)"""
+    from vlib import coq_bytes
+    out, i = [], 0
+    while i < len(tr):
+        t = tr[i]
+        if t[0] == "e" and t[1] == 1 and i + 1 < len(tr) and tr[i + 1][0] == "n":
+            out.append("PWByte %d" % tr[i + 1][1])
+            i += 2
+            continue
+        if t[0] == "e":
+            out.append("PWEnsure %d" % t[1])
+        elif t[0] == "n":
+            out.append("PWByteNC %d" % t[1])
+        elif t[0] == "v":
+            out.append("PWVar %d" % t[1] if t[1] >= 0 else "PWFlush")
+        elif t[0] == "f":
+            out.append("PWFixed %d %d" % (t[1], t[2]))
+        elif t[0] in ("B", "D"):
+            bs = list(bytes.fromhex(t[1]))
+            out.append(("PWBytes " if t[0] == "B" else "PWDirect ") + coq_bytes(bs))
+        else:
+            out.append("PWFlush")
+        i += 1
+    return out
+
+
+def trace_layer(ctx, n_pkgs, n_writes):
+    """Model.PyTyped against the generated Python writers: the calls made on the coded output stream while the steps of a
+    protocol are written (streams as one iterable and as one list), compared call by call with py_wops / py_stream_ops"""
+    pkgs = codec.build_packages(ctx, n_pkgs, "tr", cpp=False, ndjson=False)
+    try:
+        cases, meta = [], []
+        for gp in pkgs:
+            for pname, steps in gp.pkg.protocols:
+                schema = gp.schemas_[pname]
+                for _ in range(n_writes):
+                    ws = ymodel.gen_writes(ctx.rng, steps)
+                    stream = ymodel.enc_header(schema) + ymodel.enc_steps(steps, ws)
+                    for mode in ("copy", "list"):
+                        r = gp.py_call({"proto": pname, "fin": "binary", "fout": "binary", "data": stream.hex(), "mode": mode, "trace": True})
+                        if not r["ok"] or r.get("trace") is None:
+                            continue    # reported by the typed layer
+                        tr = r["trace"]
+                        if tr and tr[-1] == ["F"]:
+                            tr = tr[:-1]          # close() flushes
+                        psteps = []
+                        for (sn, t, is_stream), w in zip(steps, ws):
+                            if is_stream:
+                                items = [x for b in w for x in b]
+                                batch = "BIter" if mode == "copy" else "BList"
+                                psteps.append("PSStream (%s) [%s [%s]]" % (t.coq(), batch, "; ".join(ymodel.coq_val(x) for x in items)))
+                            else:
+                                psteps.append("PSVal (%s) (%s)" % (t.coq(), ymodel.coq_val(w)))
+                        cases.append("([%s], [%s])" % ("; ".join(psteps), "; ".join(coq_trace(tr))))
+                        meta.append((gp, pname, mode, stream, tr))
+                        for _, t, _ in steps:
+                            ctx.count("trace_step_shape", t.shape_sig(1))
+        shards = [list(range(i, min(i + 40, len(cases)))) for i in range(0, len(cases), 40)]
+
+        def ev(idx):
+            body = ("From Coq Require Import List NArith ZArith Bool.\nImport ListNotations.\nOpen Scope N_scope.\n"
+                    "From YV Require Import Base.Wire Model.Binary Model.CodedCpp Model.CodedPy Model.PyTyped Model.PyTypedCases.\n"
+                    "Definition cases : list trcase := [\n " + ";\n ".join(cases[i] for i in idx) + "\n].\n"
+                    "Definition ST := Eval vm_compute in map trcase_status cases.\nPrint ST.\n")
+            return Ctx.parse_nat_list(ctx.coq_eval("tr_%d" % idx[0], body, timeout=1500), "ST")
+        with ThreadPoolExecutor(max_workers=8) as ex:
+            st = [x for r in ex.map(ev, shards) for x in r]
+        for (gp, pname, mode, stream, tr), s_ in zip(meta, st):
+            ctx.case(("trace", pname, mode, stream), nontrivial=len(tr) > 0,
+                     sample={"layer": "py-typed-trace", "protocol": pname, "mode": mode, "calls": len(tr), "agrees": s_ == 0})
+            ctx.count("trace_calls", "<10" if len(tr) < 10 else ("<100" if len(tr) < 100 else ">=100"))
+            if s_ != 0:
+                ctx.report("py-typed-trace-differs", "the calls the generated Python writer of protocol %s (streams written as %s) makes on "
+                           "the coded output stream part from Model.PyTyped.py_wops at call %d: observed %s"
+                           % (pname, "one iterable" if mode == "copy" else "one list", s_ - 1, tr[max(0, s_ - 2):s_ + 1]),
+                           {"layer": "py-typed-trace", "model": gp.pkg.yaml(), "namespace": gp.pkg.namespace, "protocol": pname, "mode": mode,
+                            "stream_hex": stream.hex(), "observed_calls_around": tr[max(0, s_ - 3):s_ + 2],
+                            "broken": "correspondence Model.PyTyped.py_wops vs the serializer classes of _binary.py "
+                                      "(theorems C01_py_typed_writer_bytes / C01_py_typed_guarded no longer about the code)"},
+                           no_input=True)
+    finally:
+        codec.stop_packages(pkgs)
+
+
 def boundary_layer(ctx, offsets, cpp=True):
     """Values placed so that they start `d` bytes before a 64 KiB boundary of the stream (d in offsets):
     the writer's staging buffer and the reader's refill both happen inside / right at the value."""
@@ -266,6 +351,7 @@ def run(ctx):
     cpp_writer_layer(ctx, 60 if quick else 600)
     py_writer_layer(ctx, 80 if quick else 800)
     typed_layer(ctx, 3 if quick else 12, 6 if quick else 20)
+    trace_layer(ctx, 2 if quick else 8, 4 if quick else 12)
     boundary_layer(ctx, [0, 1, 2, 5, 9] if quick else list(range(-2, 13)))
 
 
